@@ -1,10 +1,10 @@
 SPECIFICATION Spec
-CONSTANTS Threads = {1, 2, 3, 4, 5}
-          Max = 3
+CONSTANTS Threads = {1, 2, 3, 4}
+          Max = 2
           CountWhat = "alive"
           Servers = {1}
-          MaxRestarts = 1
-          Bad = {}
+          MaxRestarts = 0
+          Bad = {2, 4}
           MaxLen = 40
 VIEW View
 INVARIANT C14_Bound
